@@ -90,8 +90,14 @@ func hostileMsg(r *Rand, msize uint32) *Msg {
 	}
 	m.Ename, m.Errno = name(), u32()
 	m.Oldtag = uint16(r.Pick(0, 1, 2, 3, 0xFFFF, int(m.Tag)))
-	for k := r.Pick(0, 0, 1, 2, 16, 17, 300); k > 0; k-- {
-		m.Wname = append(m.Wname, []string{"sub", "file", "..", ".", "", "a/b", "deep", "x"}[r.Intn(8)])
+	nw := r.Pick(0, 0, 1, 2, 16, 17, 300)
+	resolving := r.Pct(30) // every element exists: down and up again, however many there are
+	for k := 0; k < nw; k++ {
+		if resolving {
+			m.Wname = append(m.Wname, []string{"sub", ".."}[k%2])
+		} else {
+			m.Wname = append(m.Wname, []string{"sub", "file", "..", ".", "", "a/b", "deep", "x"}[r.Intn(8)])
+		}
 		m.Wqid = append(m.Wqid, Qid{uint8(r.Intn(256)), u32(), hostileU64[r.Intn(len(hostileU64))]})
 	}
 	m.Mode = uint8(r.Pick(0, 1, 2, 3, 16, 17, 64, 255))
